@@ -10,9 +10,13 @@ import os
 import re
 import shutil
 import subprocess
+import sys
 import time
 
 import vcommon as V
+
+sys.path.insert(0, os.path.join(V.VERIF, "translator"))
+import c20_switches as SW  # noqa
 
 XI_NS = "http://www.w3.org/2001/XInclude"
 WORK = os.path.join(V.VERIF, "work", "C20")
@@ -463,6 +467,20 @@ def run_bin(binpath, lines):
     return p.returncode, p.stdout.decode("utf-8", "replace").splitlines(), p.stderr.decode("utf-8", "replace")
 
 
+def run_harness(ctx, xh, lines):
+    """run bin/xh_C20; when the shared library is being relinked by a concurrently running check (loader error, status
+    127) wait for the library build lock and try again"""
+    for attempt in range(4):
+        rc, out, err = run_bin(xh, lines)
+        if rc == 127 or "error while loading shared libraries" in err:
+            ctx.note("library not loadable (%s); waiting for the build and retrying" % err.strip()[-120:])
+            time.sleep(5)
+            ctx.build_lib()
+            continue
+        return rc, out, err
+    return rc, out, err
+
+
 # ------------------------------------------------------------------------------------------------------------------
 # answers
 # ------------------------------------------------------------------------------------------------------------------
@@ -484,10 +502,24 @@ def fatal(ans):
     return bool(exc) or any(e.endswith("/f") for e in errs)
 
 
+SPEC_CODES = {"Loop": {"CircularInclusionLoop", "CircularInclusionDocIncludesSelf"}, "NoHref": {"NoHref"},
+              "XPointer": {"XPointerNotSupported"}, "BadParse": {"InvalidParseVal"},
+              "MultiFallback": {"MultipleFallbackElems"}, "DisallowedChild": {"DisallowedChild"},
+              "OrphanFallback": {"OrphanFallback"}, "NoFallback": {"IncludeFailedNoFallback"}, "RootShape": {"-"}}
+
+
 def spec_verdict(spec, ans):
     """does the answer `ans` (split) satisfy the Spec's answer `spec` (text)?  returns (ok, why)"""
     if spec.startswith("S err"):
-        return (True, "") if fatal(ans) else (False, "the Spec demands a fatal error (%s), none was reported" % spec[6:])
+        if not fatal(ans):
+            return False, "the Spec demands a fatal error (%s), none was reported" % spec[6:]
+        # the error class that the Spec meets first must be among the reported codes (Coq: reports)
+        want = SPEC_CODES.get(spec[6:])
+        # (a DOMException -- the replacement of the document element is not a document -- ends the processing
+        # before later errors can be met)
+        if want and not any(e.split("/")[0] in want for e in ans[0]) and not ans[1]:
+            return False, "the Spec's error class %s is not among the reported codes %s" % (spec[6:], ans[0])
+        return True, ""
     if not spec.startswith("S ok D"):
         return False, "spec oracle failed: " + spec
     want = spec[6:]
@@ -504,7 +536,8 @@ def spec_verdict(spec, ans):
 # Defect switches of the model (Model20.v): a letter = the repaired behaviour is on.
 #   b C20-F2 (own xml:base of an included root), n C20-F4 (dir/.. normalised), e C20-F1 (fallback content left alone by
 #   the parser), c C20-F7 (fix-up test uses the base URI at the parent of xi:include)
-# CURRENT = what /repo implements now: b, n, e were repaired by fix: commits; c is a known finding.
+# CURRENT = what /repo implements: read from its source on every run by translator/c20_switches.py (at the time of
+# writing b, n, e are repaired by fix: commits; c is a known finding with a proposed patch).
 CURRENT = "bne"
 SWITCH_FINDING = {"b": "C20-F2", "n": "C20-F4", "e": "C20-F1", "c": "C20-F7"}
 
@@ -539,7 +572,16 @@ def run(ctx):
                        "xpointer (beyond its rejection) and accept/accept-language are outside the model; the "
                        "implementation does not support them either"]
     ctx.build_lib()
-    ok, out, failed = ctx.prove(["Base", "Gen", "C20"],
+    global CURRENT
+    try:
+        CURRENT, ev = SW.detect(V.REPO)
+        ctx.note("switches read from the source: %r (%s)" % (CURRENT, ev))
+        ctx.coverage["model_switches_from_source"] = {"flags": CURRENT, "evidence": ev}
+    except Exception as e:
+        ctx.violation("translator", {"what": "translator/c20_switches.py can no longer read the XInclude source",
+                                     "error": repr(e)}, no_input=True)
+        return
+    ok, out, failed = ctx.prove(["Base", "C20"],
                                 ["theories/C20/Properties_C20.vo", "theories/C20/Extract_C20.vo"],
                                 props_file="theories/C20/Properties_C20.v")
     proof_broken = not ok
@@ -549,20 +591,25 @@ def run(ctx):
     xm = ctx.ocaml("C20", ["gen_c20"])
     xh = ctx.harness("C20")
 
-    work = os.path.join(WORK, "%s-%d" % (ctx.seed, os.getpid()))
-    shutil.rmtree(work, ignore_errors=True)
-    os.makedirs(work, exist_ok=True)
-    try:
-        _correspond(ctx, xm, xh, work, proof_broken, failed, out)
-    finally:
-        tC = time.time()
+    acc = {}
+    nchunks = 1 if (ctx.tier == "quick" or ctx.replay) else 75          # 400 file trees per chunk
+    for chunk in range(nchunks):
+        work = os.path.join(WORK, "%s-%d-%d" % (ctx.seed, os.getpid(), chunk))
         shutil.rmtree(work, ignore_errors=True)
-        ctx.note("cleanup %.1fs" % (time.time() - tC))
+        os.makedirs(work, exist_ok=True)
         try:
-            os.rmdir(WORK)
-        except OSError:
-            pass
-    ctx.note("correspondence done in %.1fs" % (time.time() - t0))
+            _correspond(ctx, xm, xh, work, acc, chunk)
+        finally:
+            shutil.rmtree(work, ignore_errors=True)
+            try:
+                os.rmdir(WORK)
+            except OSError:
+                pass
+        if ctx.violations:
+            break
+    _report(ctx, acc, proof_broken, failed, out)
+    ctx.coverage["exhaustive"] = False
+    ctx.note("correspondence done in %.1fs (%d chunk(s))" % (time.time() - t0, chunk + 1))
 
 
 def literal_witnesses(ctx, xm, xh, work):
@@ -580,12 +627,10 @@ def literal_witnesses(ctx, xm, xh, work):
         res = []
         for m in modes:
             line = "%s %s:%s p %s %s %s" % (name, m, CURRENT, root, top, tok)
-            p = subprocess.run([xh], input=(line + "\n").encode(), stdout=subprocess.PIPE, stderr=subprocess.PIPE,
-                               timeout=300)
-            io = p.stdout.decode("utf-8", "replace").splitlines()
+            prc, io, _ = run_harness(ctx, xh, [line])
             _, mo, _ = run_bin(xm, [line])
             _, so, _ = run_bin(xm, ["%s s p - %s %s" % (name, top, tok)])
-            res.append((m, p.returncode, io[0] if io else None, mo[0], so[0], files, tok))
+            res.append((m, prc, io[0] if io else None, mo[0], so[0], files, tok))
             ctx.count()
         return res
 
@@ -636,9 +681,10 @@ def literal_witnesses(ctx, xm, xh, work):
                           "spec": sp[-400:], "what": "witness of C20-F6 differs from the model in an unexpected way"}))
 
 
-def _correspond(ctx, xm, xh, work, proof_broken, failed, out):
+def _correspond(ctx, xm, xh, work, acc, chunk):
+    """one chunk of 400 generated file trees (or the replayed case); statistics are accumulated in acc"""
     rng = ctx.rng
-    if not ctx.replay:
+    if not ctx.replay and chunk == 0:
         literal_witnesses(ctx, xm, xh, work)
     tG = time.time()
     cases = []           # (kind, case-dir, top, fstoken, files, features, relaxed)
@@ -649,7 +695,17 @@ def _correspond(ctx, xm, xh, work, proof_broken, failed, out):
                       r.get("relaxed", False)))
         modes = [r.get("mode", "x")]
     else:
-        n = 400 if ctx.tier == "quick" else 30000
+        n = 400
+        if chunk == 0:
+            # literal witnesses of the known findings C20-F5 and C20-F7 are replayed first on every run
+            for wk, wdocs in (("witness-F5", {"w/f0.xml": [E(1, "include", [(0, "href", "nope.xml")], [E(1, "fallback")])]}),
+                              ("witness-F7", {"w/f0.xml": [E(0, "a", [], [E(1, "include", [(2, "base", "s/x.xml"),
+                                                                                    (0, "href", "x.xml")], [])])],
+                                              "w/s/x.xml": [E(0, "x", [(0, "ref", "k")], [])]})):
+                c = Case(rng, wk)
+                c.docs = wdocs
+                c.top = "w/f0.xml"
+                cases.append((wk, "w%d/" % len(cases), c.top, fs_token(c), file_bytes(c), {wk}, False))
         kinds = [k for k, w in CASE_KINDS for _ in range(w)]
         for i in range(n):
             kind = kinds[i % len(kinds)] if i < 2 * len(kinds) else rng.choice(kinds)
@@ -667,7 +723,7 @@ def _correspond(ctx, xm, xh, work, proof_broken, failed, out):
             reqs.append((k, m, "c%d %s:%s %s %s %s %s" % (k, m, CURRENT, src, root, top, fstok)))
     lines = [r[2] for r in reqs]
     tA = time.time()
-    rc1, impl, err1 = run_bin(xh, lines)
+    rc1, impl, err1 = run_harness(ctx, xh, lines)
     ctx.note("files written %.1fs, harness %.1fs" % (tA - tW, time.time() - tA))
     if rc1 != 0 or len(impl) != len(lines):
         bad = reqs[min(len(impl), len(reqs) - 1)]
@@ -688,6 +744,13 @@ def _correspond(ctx, xm, xh, work, proof_broken, failed, out):
     rc3, spec, err3 = run_bin(xm, spec_lines)
     # the model with one defect switch flipped (X, DD: repaired xml:base fix-up; d, DD: no eager processing) -- computed
     # on demand, only for the cases that need an attribution
+    # how many of the cases satisfy the decidable hypotheses of T20_expansion_parser (Hyps20.under_theorem)
+    _, hyp, _ = run_bin(xm, ["c%d h p - %s %s" % (k, c[2], c[3]) for k, c in enumerate(cases)])
+    hc = acc.setdefault("under_theorem", {"cases": 0, "under_T20_expansion_parser": 0, "clean_fs": 0, "clean_doc": 0})
+    hc["cases"] += len(cases)
+    hc["under_T20_expansion_parser"] += sum(1 for h in hyp if "under_theorem=true" in h)
+    hc["clean_fs"] += sum(1 for h in hyp if "clean_fs=true" in h)
+    hc["clean_doc"] += sum(1 for h in hyp if "clean_doc=true" in h)
     alt_cache = {}
     # the model with switches toggled, for every case on which the model or the implementation deviates from the Spec
     need = sorted({(k, m) for (k, m, line), i, mo in zip(reqs, impl, model)
@@ -703,12 +766,11 @@ def _correspond(ctx, xm, xh, work, proof_broken, failed, out):
     def alt(k, m, t):
         return alt_cache.get((k, m, t), "model-failed")
 
-    kinds = {}
-    featc = {}
+    kinds = acc.setdefault("kinds", {})
+    featc = acc.setdefault("features", {})
     divergences = []
-    relaxed_n = 0
-    repaired_n = {}
-    verdicts = {"spec-ok": 0, "spec-error": 0}
+    repaired_n = acc.setdefault("repaired", {})
+    verdicts = acc.setdefault("verdicts", {"spec-ok": 0, "spec-error": 0})
     finding_hits = {"C20-F1": [], "C20-F2": [], "C20-F4": [], "C20-F5": [], "C20-F7": []}
     unexplained_spec = []
     for (k, m, line), i, mo in zip(reqs, impl, model):
@@ -726,14 +788,6 @@ def _correspond(ctx, xm, xh, work, proof_broken, failed, out):
         sp = spec[k]
         verdicts["spec-ok" if sp.startswith("S ok") else "spec-error"] += 1
         same = (i == mo)
-        if not same and relaxed:
-            # cycles spelled with '..': the code compares unnormalised strings and may detect the loop one round
-            # later than the model (documented abstraction); both must report a loop-class fatal error
-            ma = split_answer(mo)
-            loopish = lambda a: any(e.startswith("CircularInclusion") for e in a[0])
-            if ma and fatal(ia) and loopish(ma):
-                relaxed_n += 1
-                same = True
         if not same:
             # does the implementation behave like the model with some switches toggled?
             hit = [t for t in toggles(m) if alt(k, m, t) == i]
@@ -767,12 +821,8 @@ def _correspond(ctx, xm, xh, work, proof_broken, failed, out):
         else:
             unexplained_spec.append((k, m, i, sp, why))
 
-    ctx.coverage["traces_validated_against_impl"] = len(lines)
-    ctx.coverage["input_distribution"] = {"case_kinds": kinds, "features": featc, "spec_verdicts": verdicts,
-                                          "relaxed_dotdot_cycles": relaxed_n,
-                                          "answers_equal_to_repaired_model": repaired_n,
-                                          "impl_fatal": sum(1 for a in impl if "/f" in a or " X:" in a)}
-    ctx.coverage["spec_oracle_checked"] = len(lines)
+    acc["requests"] = acc.get("requests", 0) + len(lines)
+    acc["impl_fatal"] = acc.get("impl_fatal", 0) + sum(1 for a in impl if "/f" in a or " X:" in a)
     for k in (0, len(reqs) // 2, len(reqs) - 1):
         if k < len(reqs):
             ctx.sample({"kind": cases[reqs[k][0]][0], "mode": reqs[k][1], "top": cases[reqs[k][0]][2],
@@ -805,32 +855,54 @@ def _correspond(ctx, xm, xh, work, proof_broken, failed, out):
     for k, m, i, sp, why in unexplained_spec[:5]:
         ctx.violation("spec", payload(k, m, {"impl": i, "spec": sp, "why": why,
                       "what": "implementation (and the faithful model) violate the Spec and no known finding explains it"}))
-    texts = {"C20-F1": "includes inside an xi:fallback are processed when their end tag is parsed, even if the fallback "
-                       "is never used: their errors (e.g. IncludeFailedNoFallback, fatal) are reported for a document "
-                       "whose inclusion succeeds",
-             "C20-F2": "xml:base fix-up of an included document element that carries its own relative xml:base omits "
-                       "the directory of the included file: the element's base URI (and every relative reference or "
-                       "nested href below it) resolves to a different target"}
-    texts["C20-F7"] = ("whether the included document element needs an xml:base is decided by comparing the base URI of "
-                       "the xi:include element itself (moved by its own xml:base) with the included document: an include "
-                       "whose own xml:base names the target gets no fix-up and the included content takes the base URI "
-                       "of the including document")
-    texts["C20-F4"] = ("the href is appended to the directory of the base URI and opened without removing 'seg/..': a "
-                       "reference like ../x fails when the base names a directory that does not exist (xml:base), "
-                       "although it resolves to an existing file")
-    texts["C20-F5"] = ("an xi:include that is the document element and is replaced by nothing (empty xi:fallback) leaves a "
-                       "document without document element and no error is reported (XInclude 4.5.1 demands a fatal error)")
     for fid, hits in finding_hits.items():
         if not hits:
             continue
-        if ctx.find_known(fid):
-            ctx.known_finding(fid, "%s; %d generated cases of this class (first: case kind %s)"
-                              % (texts[fid], len(hits), cases[hits[0][0]][0]))
-        else:
+        rec = acc.setdefault("findings", {}).setdefault(fid, {"n": 0, "first": None})
+        rec["n"] += len(hits)
+        if rec["first"] is None:
             k, m, why = hits[0]
-            ctx.violation(fid, payload(k, m, {"impl": impl[[r[0:2] for r in reqs].index((k, m))], "spec": spec[k],
-                                              "why": why, "what": texts[fid]}))
-    ctx.coverage["findings_attributed"] = {f: len(h) for f, h in finding_hits.items()}
+            rec["first"] = (cases[k][0], payload(k, m, {"impl": impl[[r[0:2] for r in reqs].index((k, m))],
+                                                        "spec": spec[k], "why": why}))
+    ctx.note("%d requests, %d divergences, findings %s, unexplained spec deviations %d" % (
+        len(lines), len(divergences), {f: len(h) for f, h in finding_hits.items()}, len(unexplained_spec)))
+
+
+FINDING_TEXTS = {"C20-F1": "includes inside an xi:fallback are processed when their end tag is parsed, even if the fallback "
+                   "is never used: their errors (e.g. IncludeFailedNoFallback, fatal) are reported for a document "
+                   "whose inclusion succeeds",
+         "C20-F2": "xml:base fix-up of an included document element that carries its own relative xml:base omits "
+                   "the directory of the included file: the element's base URI (and every relative reference or "
+                   "nested href below it) resolves to a different target"}
+FINDING_TEXTS["C20-F7"] = ("whether the included document element needs an xml:base is decided by comparing the base URI of "
+                   "the xi:include element itself (moved by its own xml:base) with the included document: an include "
+                   "whose own xml:base names the target gets no fix-up and the included content takes the base URI "
+                   "of the including document")
+FINDING_TEXTS["C20-F4"] = ("the href is appended to the directory of the base URI and opened without removing 'seg/..': a "
+                   "reference like ../x fails when the base names a directory that does not exist (xml:base), "
+                   "although it resolves to an existing file")
+FINDING_TEXTS["C20-F5"] = ("an xi:include that is the document element and is replaced by nothing (empty xi:fallback) leaves a "
+                   "document without document element and no error is reported (XInclude 4.5.1 demands a fatal error)")
+
+
+def _report(ctx, acc, proof_broken, failed, out):
+    ctx.coverage["traces_validated_against_impl"] = acc.get("requests", 0)
+    ctx.coverage["spec_oracle_checked"] = acc.get("requests", 0)
+    ctx.coverage["input_distribution"] = {"case_kinds": acc.get("kinds", {}), "features": acc.get("features", {}),
+                                          "spec_verdicts": acc.get("verdicts", {}),
+                                          "answers_equal_to_repaired_model": acc.get("repaired", {}),
+                                          "impl_fatal": acc.get("impl_fatal", 0),
+                                          "hypotheses_of_theorems": acc.get("under_theorem", {})}
+    for fid, rec in sorted(acc.get("findings", {}).items()):
+        kind, pay = rec["first"]
+        if ctx.find_known(fid):
+            ctx.known_finding(fid, "%s; %d generated requests of this class (first: case kind %s)"
+                              % (FINDING_TEXTS[fid], rec["n"], kind))
+        else:
+            pay = dict(pay)
+            pay["what"] = FINDING_TEXTS[fid]
+            ctx.violation(fid, pay)
+    ctx.coverage["findings_attributed"] = {f: r["n"] for f, r in acc.get("findings", {}).items()}
     if proof_broken and not ctx.violations:
         ctx.violation("obligation", {"what": "Coq obligation no longer checks and no failing input was found by the "
                                      "correspondence", "failed": failed, "output": out[-3000:]}, no_input=True)
@@ -838,5 +910,3 @@ def _correspond(ctx, xm, xh, work, proof_broken, failed, out):
                             "features counted in input_distribution) x {XercesDOMParser, DOMLSParser, "
                             "XIncludeDOMDocumentProcessor} x {path, file: URL}; a case is non-trivial when the top "
                             "document contains an xi:include; distinct by (mode, file system)")
-    ctx.note("%d requests, %d divergences, %d relaxed, findings %s, unexplained spec deviations %d" % (
-        len(lines), len(divergences), relaxed_n, {f: len(h) for f, h in finding_hits.items()}, len(unexplained_spec)))
